@@ -125,4 +125,26 @@ theorem reach_in_closed {deps : Name → List Name} {S : Name → Prop}
   | refl => exact hr
   | step _ hc ih => exact hclosed _ ih _ hc
 
+/-- `clean_tasks`' de-duplication never removes anything: what `flat` emits is already duplicate-free -/
+theorem dedup_flat (ns : Nodes) (h : (keys ns).Nodup) : dedup [] (flat ns).out = (flat ns).out :=
+  dedup_of_nodup _ _ ((flat_spec ns).2.nodup_iff.2 h) (fun _ _ hm => by simp at hm)
+
+theorem plan_order {tbl : Table} {r : Req} {base : List Name} {p : Plan}
+    (hb : cleanList tbl r = .ok base) (hp : plan tbl r = .ok p) :
+    p.order = dedup [] (flat (buildTree tbl r base).nodes).out := by
+  simp only [plan, hb] at hp
+  cases hp
+  rfl
+
+theorem tree_nodup {tbl : Table} {r : Req} {base : List Name} (hf : BuildFuelOk tbl r base) :
+    (keys (buildTree tbl r base).nodes).Nodup := by
+  unfold BuildFuelOk at hf
+  unfold buildTree at hf ⊢
+  by_cases hd : withDeps r = true
+  · simp only [hd, if_true] at hf ⊢
+    exact (buildAll_spec _ _ _ hf).1
+  · simp only [hd] at hf ⊢
+    exact (buildNoDeps_spec _ _).1
+
+
 end DoitModel.Clean
